@@ -391,7 +391,13 @@ def sd_queue_contracts(dual=False):
                                # empty queue: refilled first; the result is an item of maximal current characteristic
                                "implies(old(%s.glen) == 0, %s)" % (GQ, member("result")),
                                "implies(old(%s.glen) == 0, %s.glen == self.gn - 1)" % (GQ, GQ),
+                               # stepping stones (lemmas) for the maximality claim
+                               "implies(old(%s.glen) == 0, forall(0, %s.glen, lambda qi: %s.gkeys[qi] == %s.gitems[qi].globalR "
+                               "and %s.gkeys[qi] <= result.globalR))" % ((GQ,) * 5),
+                               "implies(old(%s.glen) == 0, forall(0, self.gn, lambda k: self.gseq[k] is result or "
+                               "%s.gcnt[self.gseq[k]] >= 1))" % (GQ, GQ),
                                "implies(old(%s.glen) == 0, forall(0, self.gn, lambda k: self.gseq[k].globalR <= result.globalR))" % GQ],
+                           chain=True,
                            doc="C19: a best-interval request returns (and removes) an entry whose queued characteristic is "
                                "maximal; an empty queue is refilled first"))
     return cs
